@@ -431,6 +431,12 @@ theorem shared_count :
     C14.shared.length = 41 ∧ C14.shared.Nodup ∧ C14.onlyTools = [] ∧ C14.onlyLaue = [] := by
   decide
 
+/-- C14(quantifier): private helpers outside the API (split off public functions by a refactor; the tracer inlines them into
+the traced callers, the untraced callers are compared as source) are literally the same source in the two modules. -/
+theorem helpers_ast_identical :
+    C14.helperToolsAst = C14.helperLaueAst := by
+  decide
+
 /-- C14(quantifier): every shared name is AST-identical or AST-different (31 + 10 = 41, disjoint), and every shared
 name is covered by one of the three kinds of evidence of this file: `C14.rflEqual` (models are the same function:
 `c14_*`, `sysabs*_same`), `C14.scaleLaw` (a proved 2π-convention law; `ubi_to_u_and_eps` only partially — known
